@@ -18,7 +18,8 @@ EXTENDS Integers, Sequences, FiniteSets, TLC, Json
 
 CONSTANTS N,        \* --backups
           Extra,    \* pre-existing slots beyond N
-          MaxOps    \* history length
+          MaxOps,   \* history length
+          InitAll   \* TRUE: every subset of slots is an initial directory; FALSE (large N): prefixes and one-gap directories only
 
 M == N + Extra
 Slots == 0..M
@@ -54,7 +55,10 @@ AppendF(d, g) == IF Present(d, 0) THEN [d EXCEPT ![0] = <<d[0][1], d[0][2] + 1>>
 \* (1 or 2 records per pre-existing file)
 InitDir(S) == [k \in Slots |-> IF k \in S THEN <<M + 1 - k, 1 + (k % 2)>> ELSE Absent]
 
-Init == /\ \E S \in SUBSET Slots : dir = InitDir(S)
+\* for retention windows with two-digit suffixes (N >= 10) the initial directories are the dense prefixes 0..k and the
+\* full directory with one slot missing
+DenseSets == {0..k : k \in 0..M} \cup {Slots \ {g} : g \in 1..M} \cup {{}}
+Init == /\ \E S \in (IF InitAll THEN SUBSET Slots ELSE DenseSets) : dir = InitDir(S)
         /\ nextgen = M + 2
         /\ snap = dir /\ d0 = dir
         /\ last = [op |-> "init"]
